@@ -947,21 +947,40 @@ class Interp(object):
         raise Unsupported("'in' on %r" % (container,))
 
     def expr_BoolOp(self, node, st, fr):
+        """Python's `and` / `or`: the result is one of the OPERANDS (`x or default`), chosen by the truth values of the
+        operands before it; evaluation stops at the first operand whose truth value decides concretely."""
         is_and = isinstance(node.op, ast.And)
-        res = None
+        items = []
         for v in node.values:
             val = self.eval(v, st, fr)
             t = self.truth(val, st)
-            if res is None:
-                res = t
-            else:
-                res = band(res, t) if is_and else bor(res, t)
-            # python short-circuit: stop evaluating once decided concretely
-            if is_and and res is False:
-                return False if len(node.values) else val
-            if not is_and and res is True:
-                return True
-        return res
+            items.append((val, t))
+            if isinstance(t, bool) and ((is_and and not t) or (not is_and and t)):
+                break           # short circuit: the operands after this one are not evaluated
+        def boolish(x):
+            return isinstance(x, bool) or (isinstance(x, Sc) and x.is_bool)
+        symbolic_truth = any(not isinstance(t, bool) for _, t in items[:-1])
+        if all(boolish(val) for val, _ in items) or (symbolic_truth and any(boolish(val) for val, _ in items)):
+            # booleans, or a mix of numbers and booleans chosen by symbolic truth values (`x and y < x`): only the TRUTH of
+            # the result can be meant
+            res = None
+            for val, t in items:
+                res = t if res is None else (band(res, t) if is_and else bor(res, t))
+            return res
+        # operands that are not booleans: fold from the right
+        result = items[-1][0]
+        for val, t in reversed(items[:-1]):
+            pick_val = (not t) if is_and else t            # `and` returns val when val is falsy, `or` when it is truthy
+            if isinstance(t, bool):
+                result = val if pick_val else result
+                continue
+            scalar = lambda x: isinstance(x, (bool, int, float, Sc)) or type(x).__name__ == 'Fraction'
+            if result is val:
+                continue
+            if not (scalar(val) and scalar(result)):
+                raise Unsupported("`and`/`or` whose outcome depends on symbolic data, between values that are not numbers")
+            result = ite(bnot(t), val, result) if is_and else ite(t, val, result)
+        return result
 
     def truth(self, v, st):
         if isinstance(v, bool):
